@@ -39,6 +39,8 @@ pub enum Stdout {
     /// a pipe whose read end is already closed (EPIPE on write; SIGPIPE is ignored by Rust binaries)
     ClosedPipe,
     Null,
+    /// stdout is a pipe whose write end is O_NONBLOCK; the reader takes `first` bytes, pauses, then drains
+    SlowNonBlocking { first: usize, pause_ms: u64 },
 }
 
 #[derive(Clone, Debug, PartialEq)]
@@ -194,6 +196,9 @@ impl Cmd {
             Stdout::Null => {
                 c.stdout(Stdio::null());
             }
+            Stdout::SlowNonBlocking { .. } => {
+                // wired below (needs a reader thread)
+            }
             Stdout::ClosedPipe => {
                 let mut fds = [0i32; 2];
                 unsafe {
@@ -203,6 +208,36 @@ impl Cmd {
                     c.stdout(Stdio::from(std::fs::File::from_raw_fd(fds[1])));
                 }
                 closed_pipe_keep = Some(fds[1]);
+            }
+        }
+        let mut slow_reader: Option<std::thread::JoinHandle<Vec<u8>>> = None;
+        if let Stdout::SlowNonBlocking { first, pause_ms } = &self.stdout {
+            let mut fds = [0i32; 2];
+            unsafe {
+                assert_eq!(libc::pipe2(fds.as_mut_ptr(), libc::O_CLOEXEC), 0);
+                let fl = libc::fcntl(fds[1], libc::F_GETFL);
+                libc::fcntl(fds[1], libc::F_SETFL, fl | libc::O_NONBLOCK);
+                use std::os::unix::io::FromRawFd;
+                c.stdout(Stdio::from(std::fs::File::from_raw_fd(fds[1])));
+                let mut rd = std::fs::File::from_raw_fd(fds[0]);
+                let (first, pause) = (*first, *pause_ms);
+                slow_reader = Some(std::thread::spawn(move || {
+                    let mut got = Vec::new();
+                    let mut buf = vec![0u8; first.max(1)];
+                    let mut taken = 0;
+                    while taken < first {
+                        match rd.read(&mut buf[..first - taken]) {
+                            Ok(0) | Err(_) => return got,
+                            Ok(n) => {
+                                got.extend_from_slice(&buf[..n]);
+                                taken += n;
+                            }
+                        }
+                    }
+                    std::thread::sleep(Duration::from_millis(pause));
+                    let _ = rd.read_to_end(&mut got);
+                    got
+                }));
             }
         }
         let _ = closed_pipe_keep;
@@ -218,6 +253,8 @@ impl Cmd {
         let stdout_h = child.stdout.take();
         let stderr_h = child.stderr.take();
         let stdin_spec = self.stdin.clone();
+        let child_done = std::sync::Arc::new(std::sync::atomic::AtomicBool::new(false));
+        let child_done2 = child_done.clone();
         let feeder = std::thread::spawn(move || {
             if let Some(mut h) = stdin_h {
                 match stdin_spec {
@@ -241,8 +278,16 @@ impl Cmd {
                         while off < b.len() {
                             // a size of 0 in the script is a long pause (longer than the key derivation
                             // the tool performs before its first read), so the next read is really short
+                            if child_done2.load(Ordering::SeqCst) {
+                                break;
+                            }
                             if sizes.get(i).copied() == Some(0) {
-                                std::thread::sleep(Duration::from_millis(450));
+                                for _ in 0..9 {
+                                    if child_done2.load(Ordering::SeqCst) {
+                                        break;
+                                    }
+                                    std::thread::sleep(Duration::from_millis(50));
+                                }
                                 i += 1;
                                 continue;
                             }
@@ -306,9 +351,15 @@ impl Cmd {
             std::thread::sleep(Duration::from_micros(sleep_us));
             sleep_us = (sleep_us * 2).min(5000);
         }
+        child_done.store(true, Ordering::SeqCst);
         std::mem::forget(child);
+        // the Command still holds our copy of the pipe's write end: drop it so the slow reader sees EOF
+        drop(c);
         let _ = feeder.join();
-        let stdout = out_t.join().unwrap_or_default();
+        let mut stdout = out_t.join().unwrap_or_default();
+        if let Some(h) = slow_reader {
+            stdout = h.join().unwrap_or_default();
+        }
         let stderr = err_t.join().unwrap_or_default();
         Output { exit, stdout, stderr, maxrss_kb: ru.ru_maxrss as i64, wall: start.elapsed() }
     }
